@@ -157,6 +157,18 @@ def _run(scn, root):
     t = cs.run_world(scn, root=root)
     viol = judge(t)
     w = t.world
+    if scn.get('realfs') and root and isinstance(t.R, dict) and not w.fired and t.escaped is None:
+        # end to end over the real writer: what is reported compiled/borrowed is on disk, verbatim
+        import os
+        opts = scn.get('options', {})
+        if opts.get('writeMibs', True) and not opts.get('dryRun'):
+            for c in t.by('writer.putData'):
+                if c.ok and str(t.R.get(c.mib)) in ('compiled', 'borrowed'):
+                    got = core.read_bytes(os.path.join(t.dst, c.mib + '.json'))
+                    if got is None or got.decode('utf-8', 'replace') != c.kw.get('data'):
+                        viol.append({'clause': 'C07.5-text', 'key': 'C07.5-text|on-disk', 'facts': {'what': 'on-disk'},
+                                     'message': 'module %s reported %s but the destination file does not hold the text handed to the writer' % (c.mib, t.R.get(c.mib))})
+            w.probe('realfs-on-disk-checked')
     if any(c.site == 'src.getData' and not c.ok for c in t.calls) and any(c.site == 'src.getData' and c.ok for c in t.calls):
         w.probe('later-source-consulted-after-failure')
     if isinstance(t.R, dict):
